@@ -28,10 +28,11 @@ ASSUMPTIONS = [
 
 def make_eval(c, adapter_kw=None):
     schema = c.schema
-    adapter = BPAdapter(schema, **(adapter_kw or {}))
+    adapters = {}
 
     @collecting
-    def clauses(out, name, tree, route):
+    def clauses(out, name, tree, route, tz=0):
+        adapter = adapters.get(tz) or adapters.setdefault(tz, BPAdapter(schema, tz_offset_min=tz, **(adapter_kw or {})))
         cls = c.bp(name)
         mi = schema.msg(f"ks.{name}")
         m = guard("build", adapter.build, cls, mi, tree, route)
@@ -57,23 +58,23 @@ def make_eval(c, adapter_kw=None):
         if guard("bytes3", bytes, m3) != b:
             out.append(("fromstring_reencode", "FromString(bytes(m)) re-encodes differently"))
 
-    def fails_clause(route, clause):
+    def fails_clause(route, clause, tz=0):
         def f(mi, tree):
             name = mi.full_name.split(".")[-1]
-            return any(cl == clause for cl, _ in clauses(name, tree, route))
+            return any(cl == clause for cl, _ in clauses(name, tree, route, tz))
 
         return f
 
     def ev(case):
-        name, tree, route = case["msg"], case["tree"], case.get("route", "kwargs")
+        name, tree, route, tz = case["msg"], case["tree"], case.get("route", "kwargs"), case.get("tz", 0)
         mi = schema.msg(f"ks.{name}")
-        found = clauses(name, tree, route)
+        found = clauses(name, tree, route, tz)
         fails = []
         for clause, detail in found:
-            fails += cm.failures_for(schema, mi, tree, clause, f"msg={name} route={route} tree={tree!r} :: {detail}",
-                                     fails_clause(route, clause))
+            fails += cm.failures_for(schema, mi, tree, clause, f"msg={name} route={route} tz={tz} tree={tree!r} :: {detail}",
+                                     fails_clause(route, clause, tz))
         return Eval(fails, nontrivial=cm.is_nontrivial_value(schema, mi, tree),
-                    labels=cm.labels_for(schema, mi, tree) + [f"route:{route}"])
+                    labels=cm.labels_for(schema, mi, tree) + [f"route:{route}", f"tz:{tz}"])
 
     return ev
 
@@ -86,6 +87,7 @@ def targets(ctx):
     def strat(draw):
         case = dict(draw(base))
         case["route"] = draw(st.sampled_from(["kwargs", "kwargs", "setattr", "lazy"]))
+        case["tz"] = draw(st.sampled_from([0, 0, 0, 330, -480, 765]))  # UTC offset of the aware datetimes put into Timestamp fields
         return case
 
     # ---- programs: grammar-generated schemas compiled by the current plugin, PRNG-drawn values (seed from Hypothesis)
